@@ -54,6 +54,23 @@ CHECKS["C15"] = dict(level="model_checking", design="5 C15",
         "re-arming and the post-crash load are validated by TLC.",
    note=P_NOTE + " Contention is simulated by running the message from inside the serialiser, not by a second thread.",
    technique="TLC model checking (safety + liveness) of Persist.tla + fault/contention enumeration on the real schedules, traces validated by TLC")
+CHECKS["C17"] = dict(level="model_checking", design="5 C17",
+   text="Mqtt.tla defines the topic <-> command mapping over level sequences (prefix compared by levels, ack <-> QoS) and the required "
+        "subscription set. TLC checks RoundTrip / ForeignRejected / WrongLengthRejected over 1.28 M (prefix, header, foreign prefix) states. "
+        "The real MQTTTransport.send -> pub_callback -> recv -> Gateway.logic path is executed for prefixes of 1..3 levels (empty, digit-only, "
+        "nested, in != out), random headers / payloads / QoS and foreign topics; subscription sets are recorded over histories with restored "
+        "persistence files, both flavours and raising callbacks. All records validated by TLC (MqttTrace.tla).",
+   note="Trusts TLC and the harness' level splitting (str.split('/')). Payloads restricted to what the wire format carries.",
+   technique="TLC model checking of Mqtt.tla + TLC validation of recorded publish / receive / subscribe executions")
+CHECKS["C18"] = dict(level="model_checking", design="5 C18",
+   text="Config.tla models the cooperative constructor chain as keyword threading (which class takes which option, defaults, observable "
+        "effect) and the version floor over (major, minor). TLC enumerates every (class, subset of documented options) and checks the floor "
+        "laws; every configuration is constructed for real and each effect read back (timeouts, port, baud, prefixes, retain observed "
+        "through a publish, callback observed through a probe message, tables observed through version-specific probe frames); every "
+        "version string 0..3 x 0..12 x patch absent/0..3 plus invalid ones is given to a gateway and presented by a node. Records validated by TLC.",
+   note="Constructors do not connect. 2.0 and 2.1 are behaviourally identical and form one observation class. Strings AwesomeVersion "
+        "special-cases ('latest', 'v2') are outside the property's quantifier and not generated.",
+   technique="TLC enumeration of Config.tla (constructor chain, version floor) + TLC validation of recorded real constructions and probes")
 CHECKS["C09"] = dict(level="model_checking", design="5 C09",
    text="Ota.tla states what an OTA server must serve (0xFF padding of at most one page to a multiple of 128, 16-byte blocks, "
         "little-endian words, CRC-16/MODBUS defined bit by bit). TLC checks the spec's arithmetic for every length 1..400 and then acts "
